@@ -1192,37 +1192,9 @@ func TestVerifC07(t *testing.T) {
 
 	var k, mine int64
 
-	// Phase A: every suite against the whole universe and the named sets.
-	startA := time.Now()
-phaseA:
-	for ci, cases := range plan.caseSetsA {
-		for di := range plan.directives {
-			k++
-			if !r.Mine(k) {
-				continue
-			}
-			if expired() {
-				break phaseA
-			}
-			r.Count("phaseA suites done", 1)
-			suite := plan.directives[di]
-			suite.Cases = cases
-			for _, set := range plan.named {
-				for _, mode := range runModes {
-					in := c07Input{Suites: []c07Suite{suite}, CfgSet: set.Label, Cases: nil, RunMode: mode}
-					res := c07Evaluate(&in, set, 5, false)
-					c07Report(r, &in, res)
-					r.Count("phaseA evaluations", 1)
-				}
-			}
-			mine++
-			if mine == 1 || mine%97 == 0 {
-				r.Sample(c07Input{Suites: []c07Suite{suite}, CfgSet: plan.named[ci%len(plan.named)].Label, RunMode: runModes[int(mine)%3]})
-			}
-		}
-	}
-	r.Count("phaseA ms (this shard summed)", time.Since(startA).Milliseconds())
-
+	// Order: cheapest config-case sets first (singletons, then the two-suite
+	// loads, then the large named sets), so that a budget cut under load
+	// truncates only the tail of the most expensive phase.
 	// Phase B: every suite against every singleton of the reduced universe.
 	startB := time.Now()
 phaseB:
@@ -1238,6 +1210,9 @@ phaseB:
 			r.Count("phaseB suites done", 1)
 			suite := plan.directives[di]
 			suite.Cases = cases
+			if di == len(plan.directives)/3 {
+				r.Sample(c07Input{Suites: []c07Suite{suite}, CfgSet: "single", Cases: plan.singles[len(plan.singles)/2].Mirror, RunMode: runModes[0]})
+			}
 			for _, set := range plan.singles {
 				for _, mode := range runModes {
 					in := c07Input{Suites: []c07Suite{suite}, CfgSet: "single", Cases: set.Mirror, RunMode: mode}
@@ -1293,4 +1268,35 @@ phaseC:
 		}
 	}
 	r.Count("phaseC ms (this shard summed)", time.Since(startC).Milliseconds())
+
+	// Phase A: every suite against the whole universe and the named sets.
+	startA := time.Now()
+phaseA:
+	for ci, cases := range plan.caseSetsA {
+		for di := range plan.directives {
+			k++
+			if !r.Mine(k) {
+				continue
+			}
+			if expired() {
+				break phaseA
+			}
+			r.Count("phaseA suites done", 1)
+			suite := plan.directives[di]
+			suite.Cases = cases
+			for _, set := range plan.named {
+				for _, mode := range runModes {
+					in := c07Input{Suites: []c07Suite{suite}, CfgSet: set.Label, Cases: nil, RunMode: mode}
+					res := c07Evaluate(&in, set, 5, false)
+					c07Report(r, &in, res)
+					r.Count("phaseA evaluations", 1)
+				}
+			}
+			mine++
+			if mine == 1 || mine%97 == 0 {
+				r.Sample(c07Input{Suites: []c07Suite{suite}, CfgSet: plan.named[ci%len(plan.named)].Label, RunMode: runModes[int(mine)%3]})
+			}
+		}
+	}
+	r.Count("phaseA ms (this shard summed)", time.Since(startA).Milliseconds())
 }
